@@ -20,18 +20,26 @@ def count_after_stall(topo, pipe, victim, stall_step):
     """per direct publisher of `victim` (synchronized connections): number of distinct frame ids published on the output the
     victim is attached to after the stall, while the victim's client entry may still be counted."""
     out = {}
-    for i, s in enumerate(topo.filters[victim]['srcs']):
-        if s['eph']:
-            continue
-        g, o = s['pub'], s['out']
-        port = topo.port(g, o)
-        mids = set()
-        for ev in pipe.world.events:
-            if ev[0] == 'pub' and ev[1].split('/')[0] == g and ev[5] > stall_step and int(ev[2].rsplit(':', 1)[1]) == port:
-                topic, env = simzmq.hdr(ev[3])
-                if env['mid'] >= 0:
-                    mids.add((ev[4], env['mid']))
-        out[g] = len(mids)
+    # the direct publishers of the victim, and - "a stalled consumer stalls its producers" - every producer further upstream
+    # (a relay blocked on its outputs must not keep drawing frames from its own sources)
+    todo, seen = [victim], set()
+    while todo:
+        f = todo.pop()
+        for i, s in enumerate(topo.filters[f]['srcs']):
+            if s['eph'] or (s['pub'], s['out']) in seen:
+                continue
+            seen.add((s['pub'], s['out']))
+            g, o = s['pub'], s['out']
+            port = topo.port(g, o)
+            mids = set()
+            for ev in pipe.world.events:
+                if ev[0] == 'pub' and ev[1].split('/')[0] == g and ev[5] > stall_step and int(ev[2].rsplit(':', 1)[1]) == port:
+                    topic, env = simzmq.hdr(ev[3])
+                    if env['mid'] >= 0:
+                        mids.add((ev[4], env['mid']))
+            out[g] = max(out.get(g, 0), len(mids))
+            if not topo.filters[g].get('outbal') and len([c for c in topo.conns_of(g) if topo.src_of(c)['eph'] == 0]) == 1:
+                todo.append(g)         # g has no other synchronized consumer: it must come to a halt too
     return out
 
 
@@ -42,7 +50,7 @@ def registered(topo, pipe, victim):
         if s['eph']:
             continue
         snd = getattr(getattr(pipe.filters.get(s['pub']), 'mq', None), 'sender', None)
-        if snd is None or not any(c[0] == victim for c in list(snd.clients.values())):
+        if snd is None or not any(c[0] == topo.filters[victim].get('cid', victim) for c in list(snd.clients.values())):
             return False
     return True
 
@@ -220,6 +228,8 @@ def scenarios(quick):
                (T.eph_first(maxseq=40), 'K', 4 if quick else 60, 2000, 'eph-first'),
                # a non-balanced publisher bound to two addresses: the consumer on the other address must still hold it back
                (T.two_addr(maxseq=40), 'K', 4 if quick else 60, 2000, 'two-addresses'),
+               # two replicas of one consumer (same filter id, told apart by the connection's uid): one of them stalls
+               (T.same_id(T.tee(maxseq=40), ['A', 'B'], 'R'), 'B', 4 if quick else 60, 2000, 'replica-of-same-id'),
                # the publisher is an application using the blocking send()
                (T.blocking(T.tee(maxseq=40), ['S']), 'B', 4 if quick else 60, 2000, 'blocking-publisher'),
                # a worker of a balanced splitter with a '?' listener on its endpoint: the listener's requests must not
